@@ -64,7 +64,12 @@ def gen_scenario(rng, nops):
         elif r < 0.87: ops.append('(count %s)' % E.H(rng.choice(AUTO + ['id1', 'x'])))
         elif r < 0.92: ops.append('(ids)')
         elif r < 0.96: ops.append('(dups)')
-        else: ops.append('(setmodel)')
+        elif r < 0.98: ops.append('(setmodel)')
+        else: ops.append('(switch)')
+    if rng.random() < 0.25:
+        # the annotator is handed a second model object with the same identifiers (a re-parse / clone), then used on it
+        i = rng.randrange(1, len(ops) + 1)
+        ops[i:i] = ['(switch)', '(item %s)' % E.H(rng.choice(IDPOOL[4:])), '(%s %d %d)' % (rng.choice(['assignidk', 'editk 2 0 #7a7a) (assignidk']), rng.choice([0, 14, 13, 7]), rng.randrange(0, 3)), '(ids)']
     if rng.random() < 0.35:
         # an item re-identified through one of its other handles, then looked at and assigned around
         k = rng.choice([2, 2, 5, 12, 4])
@@ -100,7 +105,7 @@ def oracle(shape_line, ops, results):
         new = ids_of(res)
         head = op[1:-1].split()
         r = res[1:].split(' ', 1)[0] if not res.startswith('((') else 'list'
-        if head[0] == 'setmodel': has_model = True
+        if head[0] in ('setmodel', 'switch'): has_model = True
         if head[0] in ('assignall', 'assignids') and has_model:
             target = [i for i in visits if head[0] == 'assignall' or kinds[i] == int(head[1])]
             for i in set(target):
